@@ -63,7 +63,18 @@ func (f *rotateFile) rotate() error {
 
 	now := time.Now()
 
-	if err := os.Rename(f.path, fmt.Sprintf("%s.%s", f.path, now.Format("20060102150405"))); err != nil {
+	// never rename over an earlier rotated file: several rotations can fall
+	// into the same second
+	target := fmt.Sprintf("%s.%s", f.path, now.Format("20060102150405"))
+	for i := 1; ; i++ {
+		if _, err := os.Lstat(target); os.IsNotExist(err) {
+			break
+		}
+
+		target = fmt.Sprintf("%s.%s.%d", f.path, now.Format("20060102150405"), i)
+	}
+
+	if err := os.Rename(f.path, target); err != nil {
 		return err
 	}
 
